@@ -26,6 +26,12 @@ SHARDS = {"quick": 1, "thorough": 1}  # one shard; it runs 16 session subprocess
 BUDGET = {"quick": 100.0, "thorough": 900.0}  # ceilings (heavily loaded machine); typical use is 15-25 s / 2-4 min
 WORKERS = 24  # sessions mostly sleep (alarms, holds): more children than cores
 REQUIRE = {
+    "EXIT_group_shape_checked": 40,
+    "EXIT_group_shape_checked:eg1_boom": 8,
+    "EXIT_group_shape_checked:beg1_base": 8,
+    "EXIT_group_shape_checked:eg2": 8,
+    "EXIT_group_shape_checked:egnest": 8,
+    "EXIT_group_of_only_exitmainloop_ended_run_normally": 8,
     "ORD_popups_on_after_swap_checked": 100,
     "ORD_popups_on_after_swap_checked:swapped-before-any-popup": 20,
     "ORD_popups_on_after_swap_checked:swapped-after-popup-closed": 20,
@@ -94,13 +100,15 @@ RULE = (
     "mouse presses, focus/paste sequences, SIGWINCH with a real size change, 2 alarms, watch_pipe write, watch_file "
     "write, pop-up open/close, MainLoop.run() called two or three times on the same MainLoop/event-loop/screen objects (every loop but twisted; each run ended by a fault kind or the scripted exit and judged separately), several keys in one write whose first key makes a callback replace loop.widget by a page of other selectability / other handled keys, keys split over two writes (ESC|[A, a split UTF-8 char, a split SGR mouse report, a split f5) "
     "with the second write made after the loop read the first and the loop then held waiting > complete_wait; fixed orders + "
-    "seeded shuffles in thorough) x injection (none, or ExitMainLoop / Boom(Exception) / Halt(BaseException) / SystemExit "
+    "seeded shuffles in thorough) x injection (none, or ExitMainLoop / Boom(Exception) / Halt(BaseException) / SystemExit / exception groups (of one Boom, one ExitMainLoop, one BaseException, two members, nested one-in-one) "
     "at the k-th invocation of one of the 8 callback sites, enumerated from the fault-free run of the same "
     "configuration); quick = full enumeration for select and asyncio, first/last/per-site points elsewhere; thorough = "
     "full enumeration everywhere; distinct = distinct (configuration, script, injection); non-trivial = run() was entered "
     "and the terminal modes were observed switched on"
 )
 ASSUMES = [
+    "an exception group raised by a callback is judged by type, message, notes, shape and the identity of its leaf exceptions (Trio rebuilds group objects, so the group leaving run() may be an equal copy)",
+    "a group whose only leaves are ExitMainLoop ends run() normally on every loop: MainLoop.run and the select/zmq loops use contextlib.suppress(ExitMainLoop), which since Python 3.12 removes matching members from exception groups (stdlib semantics, measured on all six loops and the no-hook path); it is counted, and judged only in that run() must end at that point and the terminal be restored",
     "each session runs in its own process forked from a template interpreter that has only imported urwid and the loop libraries (no loop, reactor, screen or signal handler was ever created in it); 12 sessions per run are repeated in brand-new interpreters (subprocess.run) and must agree (fresh_vs_forked_agree), VERIF_C12_FRESH=1 and --replay use brand-new interpreters throughout",
     "callbacks that run between an injected fault and the end of run() are counted, not judged (asyncio/tornado/twisted/trio stop at the end of the current loop iteration); a fault that does not end run() before the session's own scripted exit is a violation",
     "'window resize' is an input event seen by the input filter only (MainLoop documents that it handles resizing itself); it is not expected at the widget",
@@ -113,6 +121,9 @@ ASSUMES = [
 ]
 
 LOOPS = ("select", "asyncio", "tornado", "twisted", "trio", "zmq")
+# exception groups raised by the callback: ExceptionGroup of one Boom / of one ExitMainLoop, BaseExceptionGroup of one
+# BaseException, ExceptionGroup of two, ExceptionGroup of one ExceptionGroup of one
+GROUP_KINDS = ("eg1_boom", "eg1_exit", "beg1_base", "eg2", "egnest")
 SITES = pty_term.SITES
 POP = {"left": 2, "top": 1, "w": 12, "h": 3}
 HANDLED_KEYS = ("a", "p", "c", "x", "y", "w", "begin paste", "end paste")
@@ -556,6 +567,35 @@ def judge(spec, res, ctx, base_rst=None):  # noqa: C901, PLR0912, PLR0915
                 add("EXIT", f"exitmainloop-raised:{out.get('exc_type')}", f"run() raised {out.get('exc_repr')}\n{out.get('tb', '')}")
             elif fe is not None:
                 add("EXIT", "exitmainloop-ignored", f"ExitMainLoop from {icls} did not end run(); session went on until final exit via {fe}; {len(after)} callbacks later")
+        elif kind in GROUP_KINDS:
+            # an exception group raised by the callback: some loops (trio) rebuild group objects, so what leaves run() is judged
+            # by type / message / notes / shape and by the IDENTITY of the leaf exceptions, not by the identity of the group
+            want, got = out.get("injected_shape"), out.get("shape")
+            if out["how"] == "returned":
+                if kind == "eg1_exit" and fe is None:
+                    # contextlib.suppress(ExitMainLoop) (MainLoop.run, select/zmq loops) strips ExitMainLoop members from groups
+                    # since Python 3.12: a group of nothing but ExitMainLoop is an exit request (see ASSUMES); run() did end here
+                    ctx.count("EXIT_group_of_only_exitmainloop_ended_run_normally")
+                elif kind == "eg1_exit":
+                    add("EXIT", "eg1_exit-ignored", f"a group holding only ExitMainLoop from {icls} neither ended run() nor propagated; session went on until final exit via {fe}")
+                else:
+                    add("EXIT", f"{kind}-swallowed", f"{kind} from {icls} never left run(): run() returned normally (final exit via {fe}); {len(after)} callbacks ran after it")
+            else:
+                ctx.count("EXIT_group_shape_checked")
+                ctx.count(f"EXIT_group_shape_checked:{kind}")
+                if got != want:
+                    def subshapes(sh):
+                        for m in sh.get("members", []):
+                            yield m
+                            yield from subshapes(m)
+                    if want and any(got == m for m in subshapes(want)):
+                        add("EXIT", f"{kind}-unwrapped-to-member:{got.get('type')}", f"run() raised the member {got!r} instead of the group the callback raised {want!r} (type, message and notes of the group lost)")
+                    else:
+                        add("EXIT", f"{kind}-replaced-by:{out.get('exc_type')}", f"run() raised {got!r}, the callback raised {want!r}\n{out.get('tb', '')}")
+                elif out.get("same_object"):
+                    ctx.count("EXIT_group_identical_object")
+                else:
+                    ctx.count("EXIT_group_equal_copy")
         else:
             if out["how"] == "returned":
                 add("EXIT", f"{kind}-swallowed", f"{kind} from {icls} never left run(): run() returned normally (final exit via {fe}); {len(after)} callbacks ran after it")
@@ -646,7 +686,7 @@ def plan_configs(ctx):
         for lp in LOOPS:
             plans.append((base_cfg(loop=lp), SCRIPT_S, "full" if lp in ("select", "asyncio") else "first"))
         for lp in LOOPS:
-            plans.append((base_cfg(loop=lp, pop_ups=True), SCRIPT_A, "ends" if lp in ("select", "asyncio") else "few"))
+            plans.append((base_cfg(loop=lp, pop_ups=True), SCRIPT_A, "first" if lp in ("select", "asyncio") else "few"))
             plans.append((base_cfg(loop=lp, pop_ups=True), SCRIPT_WP, "min"))  # page swaps under a PopUpTarget
         plans.append((base_cfg(hook=False, pop_ups=True), SCRIPT_WP, "min"))
         plans.append((base_cfg(hook=False), SCRIPT_A, "first"))
@@ -740,8 +780,8 @@ class Runner:
             self.pool.close()
 
 
-def run_fresh(specs):
-    with concurrent.futures.ThreadPoolExecutor(WORKERS) as ex:
+def run_fresh(specs, workers=WORKERS):
+    with concurrent.futures.ThreadPoolExecutor(workers) as ex:
         futs = [ex.submit(pty_term.run_session, s, 30.0) for s in specs]
         return [(s, f.result()) for s, f in zip(specs, futs)]
 
@@ -829,7 +869,7 @@ RST_DEFERRED: dict = {}
 def shrink_and_report(ctx, spec, res, vs, known, base_rst=None):
     """report each violation; for unlisted signatures try one cheap shrink (truncate the script after the fault)"""
     for sig, msg in vs:
-        if "|EXIT|" in sig and ("-swallowed|inj=" in sig or "-replaced-by:" in sig) and not ctx.replaying and not spec.get("rst_any_callback"):
+        if "|EXIT|" in sig and ("-swallowed|inj=" in sig or "-replaced-by:" in sig or "-unwrapped-to-member:" in sig) and not ctx.replaying and not spec.get("rst_any_callback"):
             # a fault that is swallowed / replaced wherever it is raised is one mechanism: grouped at the end (flush_rst)
             head, path = sig.rsplit("|inj=", 1)
             site, kind = path.rsplit(":", 1)
@@ -870,7 +910,7 @@ def shrink_and_report(ctx, spec, res, vs, known, base_rst=None):
 
 def _grouped_form(sig):
     """the 'from any callback' spelling of a per-site EXIT / RST signature (see flush_rst), else None"""
-    m = re.match(r"(.*\|EXIT\|[^|]*(?:-swallowed|-replaced-by:[^|]*))\|inj=[^|:]+:([a-z]+)$", sig)
+    m = re.match(r"(.*\|EXIT\|[^|]*(?:-swallowed|-replaced-by:[^|]*|-unwrapped-to-member:[^|]*))\|inj=[^|:]+:([a-z]+)$", sig)
     if m:
         return f"{m.group(1)}|inj=any-callback:{m.group(2)}"
     m = re.match(r"(.*\|RST\|.*)\|after-[^|:]+:([a-z]+)$", sig)
@@ -987,8 +1027,11 @@ def _run(ctx, runner):
     known = core.load_findings(PROPERTY)
     plans = plan_configs(ctx)
     # 1. fault-free runs
+    phase = ctx.extra.setdefault("phase_seconds", {})
+    phase["pool_start"] = round(ctx.elapsed(), 1)
     base_specs = [make_spec(cfg, toks) for cfg, toks, _ in plans]
     base = runner.run(base_specs)
+    phase["baselines_done"] = round(ctx.elapsed(), 1)
     todo = []
     brst_by_tag: dict = {}
     for (cfg, toks, mode), (spec, res) in zip(plans, base):
@@ -1013,26 +1056,44 @@ def _run(ctx, runner):
                 kinds.append("sysexit")
             for kind in kinds:
                 todo.append((make_spec(cfg, toks, {"site": site, "k": k, "kind": kind}), brst))
-    # 1b. the forked-child shortcut must not change what is observed: replay some sessions in brand-new interpreters
+        # exception groups: trio (the only loop with group handling of its own) gets every kind at every sampled point,
+        # the other loops one kind per point in rotation (quick); thorough: every kind at both ends of every site, all
+        # points on SCRIPT_S
+        if ctx.quick:
+            gpts = injection_points(res["counts"], "first") if (toks is SCRIPT_S or toks is SCRIPT_A and not cfg["hook"]) else []
+            few = set(injection_points(res["counts"], "few"))
+            for n, (site, k) in enumerate(gpts):
+                for kind in GROUP_KINDS if (cfg["loop"] == "trio" and (site, k) in few) else (GROUP_KINDS[n % len(GROUP_KINDS)],):
+                    todo.append((make_spec(cfg, toks, {"site": site, "k": k, "kind": kind}), brst))
+        elif mode == "full" and (toks is SCRIPT_S or toks is SCRIPT_A or toks is SCRIPT_WP) and cfg["handlers"] == "default":
+            for site, k in pts if toks is SCRIPT_S else injection_points(res["counts"], "ends"):
+                for kind in GROUP_KINDS:
+                    todo.append((make_spec(cfg, toks, {"site": site, "k": k, "kind": kind}), brst))
+    # 1b. the forked-child shortcut must not change what is observed: some sessions are repeated in brand-new interpreters
+    # (in a background thread, while the injected runs are being played) and compared at the end
+    forked: dict = {}
+    fresh_out: list = []
+    fresh_thread = None
     if not runner.fresh:
+        import threading
+
         probe = [s for s, r in base[: len(LOOPS)] if r and "log" in r]
-        stable = [t[0] for t in todo if t[0]["inject"]["site"] != "render"]  # which callback a render index hits is timing dependent
-        probe += stable[:: max(1, len(stable) // 6)][:6]
-        forked = dict((id(s), r) for s, r in runner.run(probe))
-        for s, r2 in run_fresh(probe):
-            r1 = forked.get(id(s))
-            if not (r1 and r2 and "log" in r1 and "log" in r2):
-                ctx.count("fresh_vs_forked_unavailable")
-                continue
-            if summary(r1) == summary(r2):
-                ctx.count("fresh_vs_forked_agree")
-            else:
-                ctx.count("fresh_vs_forked_differ")
-                ctx.inconc(f"forked-child-and-fresh-interpreter-disagree:{cfg_tag(s)}:inj={s.get('inject')}")
+        forked.update((id(s), r) for s, r in base[: len(LOOPS)])
+        stable = [t[0] for t in todo if t[0]["inject"]["site"] != "render" and t[0]["inject"]["kind"] in ("exit", "boom", "base")]
+        probe += stable[:: max(1, len(stable) // 6)][:6]  # (which callback a render index hits is timing dependent)
+        probe_ids = {id(s) for s in probe}
+        fresh_thread = threading.Thread(target=lambda: fresh_out.extend(run_fresh(probe, 4)), daemon=True)
+        fresh_thread.start()
+    else:
+        probe_ids = set()
+    phase["fresh_probes_done"] = round(ctx.elapsed(), 1)
+    # sessions in which trio swallows a fault from the idle redraw run until their scripted end with every step timing out
+    # (3-4 s each): start them first so that they overlap with the short ones
+    todo.sort(key=lambda t: not (t[0]["loop"] == "trio" and t[0]["inject"]["site"] == "render"))
     ctx.count("injected_runs_planned", len(todo))
     # 2. injected runs, in chunks so the budget is honoured
     done = 0
-    chunk = WORKERS * 8
+    chunk = WORKERS * 20
     for i in range(0, len(todo), chunk):
         if not ctx.more(0.95):
             ctx.inconc(f"budget-exhausted-after-{done}-of-{len(todo)}-injected-runs")
@@ -1041,9 +1102,12 @@ def _run(ctx, runner):
         for (spec, res), (_, brst) in zip(runner.run([t[0] for t in part]), part):
             vs = evaluate(ctx, spec, res, brst)
             done += 1
+            if id(spec) in probe_ids:
+                forked[id(spec)] = res
             if vs:
                 shrink_and_report(ctx, spec, res, vs, known, brst)
     ctx.count("injected_runs_done", done)
+    phase["injected_done"] = round(ctx.elapsed(), 1)
     # 3. the same objects run again: MainLoop.run() two or three times per session
     if ctx.more(0.97):
         judged = []
@@ -1062,6 +1126,19 @@ def _run(ctx, runner):
             shrink_and_report(ctx, spec, res, vs2, known, brst_by_tag.get(cfg_tag(spec)))
     else:
         ctx.inconc("budget-exhausted-before-rerun-sessions")
+    phase["reruns_done"] = round(ctx.elapsed(), 1)
+    if fresh_thread is not None:
+        fresh_thread.join(120.0)
+        for s_, r2 in fresh_out:
+            r1 = forked.get(id(s_))
+            if not (r1 and r2 and "log" in r1 and "log" in r2):
+                ctx.count("fresh_vs_forked_unavailable")
+            elif summary(r1) == summary(r2):
+                ctx.count("fresh_vs_forked_agree")
+            else:
+                ctx.count("fresh_vs_forked_differ")
+                ctx.inconc(f"forked-child-and-fresh-interpreter-disagree:{cfg_tag(s_)}:inj={s_.get('inject')}")
+        phase["fresh_compared"] = round(ctx.elapsed(), 1)
     flush_rst(ctx)
 
 
